@@ -743,7 +743,7 @@ def replay_c14_concrete(d):
 
     from .checks.gating_checks import real_plugin_run
 
-    p, before, after = real_plugin_run(d["generator"], d["schema_text"], d["fits"])
+    p, before, after = real_plugin_run(d["generator"], d["schema_text"], d["fits"], warmup=bool(d.get("warmup")))
     try:
         st = json.loads((p.stdout.strip().splitlines() or ["{}"])[-1])
     except Exception:
